@@ -17,6 +17,7 @@ import (
 	"sort"
 	"strings"
 
+	"github.com/modernizing/coca/pkg/adapter/cocafile"
 	"github.com/modernizing/coca/pkg/application/analysis/javaapp"
 	"github.com/modernizing/coca/pkg/application/api"
 	"github.com/modernizing/coca/pkg/application/arch"
@@ -26,6 +27,7 @@ import (
 	"github.com/modernizing/coca/pkg/application/evaluate"
 	cocagit "github.com/modernizing/coca/pkg/application/git"
 	"github.com/modernizing/coca/pkg/application/rcall"
+	"github.com/modernizing/coca/pkg/application/tbs"
 	"github.com/modernizing/coca/pkg/domain/bs_domain"
 	"github.com/modernizing/coca/pkg/domain/core_domain"
 	"github.com/modernizing/coca/pkg/infrastructure/string_helper"
@@ -67,7 +69,8 @@ type Run struct {
 type Report struct {
 	Name    string `json:"name"`
 	Ordered bool   `json:"ordered"`
-	Runs    []Run  `json:"runs"`
+	Runs    []Run  `json:"runs"`   // one per fresh OS process ("every run of the same command")
+	Inproc  []Run  `json:"inproc"` // the same API call repeated inside one process ("repeated executions of the same API call")
 	// evidence that the schedule varied: number of distinct raw (un-canonicalised) orders seen over the runs
 	DistinctRaw int `json:"distinctRaw"`
 }
@@ -176,10 +179,16 @@ func javaReports(c *collector, root string, roots []string) {
 	nodes := ba.AnalysisPath(root)
 	smells := ba.IdentifyBadSmell(nodes, nil)
 	items = nil
+	var graphItems []string
 	for _, s := range smells {
-		items = append(items, js(s))
+		if s.Bs == "graphConnectedCall" {
+			graphItems = append(graphItems, js(s))
+		} else {
+			items = append(items, js(s))
+		}
 	}
 	c.add("bad-smells", false, items, nil)
+	c.add("bad-smells-graphConnectedCall", false, graphItems, nil)
 	sized := map[string]bool{"largeClass": true, "repeatedSwitches": true, "longParameterList": true, "longMethod": true, "dataClass": true}
 	byType := bs_domain.SortSmellByType(append([]bs_domain.BadSmellModel{}, smells...), func(k string) bool { return sized[k] })
 	var kinds []string
@@ -222,6 +231,33 @@ func javaReports(c *collector, root string, roots []string) {
 		items = append(items, m)
 	}
 	c.add("evaluate-nullable", false, items, nil)
+	flat := func(name string, m map[string][]string) {
+		var its []string
+		for k, vs := range m {
+			for _, v := range vs {
+				its = append(its, k+"="+v)
+			}
+		}
+		c.add(name, false, its, nil)
+	}
+	flat("evaluate-service-lifecycle", ev.ServiceSummary.LifecycleMap)
+	flat("evaluate-service-returntypes", ev.ServiceSummary.ReturnTypeMap)
+	c.add("evaluate-utils", false, []string{js(ev.UtilsSummary)}, nil)
+	// test smells: the command sequence of cmd/tbs.go on the test files of the tree
+	tfiles := cocafile.GetJavaTestFiles(root)
+	var javaTests []string
+	for _, f := range tfiles {
+		if strings.HasSuffix(f, ".java") {
+			javaTests = append(javaTests, f)
+		}
+	}
+	tid := ia.AnalysisFiles(javaTests)
+	tdeps := fa.AnalysisFiles(tid, javaTests)
+	items = nil
+	for _, t := range tbs.NewTbsApp().AnalysisPath(tdeps, core_domain.BuildIdentifierMap(tid)) {
+		items = append(items, js(t))
+	}
+	c.add("test-smells", false, items, nil)
 }
 
 func logText(h []GitCommit) string {
@@ -367,16 +403,38 @@ func one(raw json.RawMessage) interface{} {
 				}
 			}
 		}
+		// the same API calls repeated three times inside ONE process
+		sub.N = -3
+		if raw, err := lib.Fresh(sub); err == nil {
+			var sr Record
+			if json.Unmarshal(raw, &sr) == nil && !sr.Panic {
+				for _, r := range sr.Reports {
+					if m, ok := merged[r.Name]; ok {
+						m.Inproc = append(m.Inproc, r.Runs...)
+					}
+				}
+			} else {
+				rec.Panic, rec.Note = true, "in-process repetition: "+sr.Note
+				return rec
+			}
+		}
 		for _, name := range order {
 			m := merged[name]
+			if m.Inproc == nil {
+				m.Inproc = []Run{}
+			}
 			m.DistinctRaw = len(raws[name])
 			// a report that was not produced by every run cannot be compared position-wise
 			rec.Reports = append(rec.Reports, *m)
 		}
 		return rec
 	}
+	reps := cs.N
+	if reps < 0 {
+		reps = -reps
+	}
 	p, msg := lib.Guard(func() {
-		for i := 0; i < cs.N; i++ {
+		for i := 0; i < reps; i++ {
 			if cs.Kind == "java" {
 				javaReports(col, root, roots)
 			} else {
@@ -388,6 +446,9 @@ func one(raw json.RawMessage) interface{} {
 	for _, name := range col.order {
 		r := col.reports[name]
 		r.DistinctRaw = len(col.raws[name])
+		if r.Inproc == nil {
+			r.Inproc = []Run{}
+		}
 		rec.Reports = append(rec.Reports, *r)
 	}
 	return rec
@@ -454,6 +515,59 @@ func genGit(r *rand.Rand, id string, n int) Case {
 	return c
 }
 
+func callStmt(recvKind, recv, callee string, args ...javagen.Expr) javagen.Stmt {
+	if args == nil {
+		args = []javagen.Expr{}
+	}
+	e := javagen.Expr{K: "call", RecvKind: recvKind, Recv: recv, Callee: callee, Args: args}
+	return javagen.Stmt{K: "expr", E: &e}
+}
+
+// two overloads of one name that start on the SAME source line and call different methods, plus a caller:
+// everything keyed by the method's full name (call graph, reference counts) sees whichever comes last
+func overloadsOnOneLine(r *rand.Rand) javagen.File {
+	f := javagen.File{Id: "ovl", PathKind: "main", Dirs: "ovl", Pkg: "ovl"}
+	f.Unit = javagen.Unit{Kind: "class", Name: "Store"}
+	m1 := javagen.Member{Kind: "method", Name: "put", Type: "void", Mods: []string{"public"}, Params: []javagen.Param{{Type: "int", Name: "a"}},
+		Body: []javagen.Stmt{callStmt("none", "", "save")}}
+	m2 := javagen.Member{Kind: "method", Name: "put", Type: "void", Mods: []string{"public"}, Params: []javagen.Param{{Type: "String", Name: "s"}},
+		Body: []javagen.Stmt{callStmt("none", "", "flush")}, SameLine: true}
+	f.Unit.Members = []javagen.Member{
+		{Kind: "method", Name: "save", Type: "void", Mods: []string{"public"}},
+		{Kind: "method", Name: "flush", Type: "void", Mods: []string{"public"}},
+		m1, m2,
+		{Kind: "method", Name: "caller", Type: "void", Mods: []string{"public"}, Body: []javagen.Stmt{callStmt("none", "", "put", javagen.Expr{K: "lit", Text: "1"})}},
+	}
+	return f
+}
+
+// a JUnit-style test class: methods with several groups of repeated calls (assertions and others), prints, sleeps
+func junitFile(r *rand.Rand) javagen.File {
+	f := javagen.File{Id: "junit", PathKind: "testname", Dirs: "", Pkg: "com.acme.blog"}
+	f.Unit = javagen.Unit{Kind: "class", Name: "StoreTest"}
+	test := javagen.Ann{Name: "Test", Form: "marker", Args: []javagen.KV{}}
+	lit := func(t string) javagen.Expr { return javagen.Expr{K: "lit", Text: t} }
+	for i := 0; i < 2+r.Intn(3); i++ {
+		m := javagen.Member{Kind: "method", Name: fmt.Sprintf("shouldDo%d", i), Type: "void", Mods: []string{"public"}, Anns: []javagen.Ann{test}}
+		groups := []javagen.Stmt{
+			callStmt("none", "", "assertEquals", lit("1"), lit("1")),
+			callStmt("var", "mock", "verify"),
+			callStmt("none", "", "assertTrue", lit("true")),
+			callStmt("static", "System.out", "println", lit("\"x\"")),
+			callStmt("static", "Thread", "sleep", lit("10")),
+		}
+		r.Shuffle(len(groups), func(a, b int) { groups[a], groups[b] = groups[b], groups[a] })
+		for g := 0; g < 2+r.Intn(3); g++ {
+			for k := 0; k < 4+r.Intn(3); k++ {
+				m.Body = append(m.Body, groups[g])
+			}
+		}
+		f.Unit.Members = append(f.Unit.Members, m)
+	}
+	f.Unit.Members = append([]javagen.Member{{Kind: "field", Name: "mock", Type: "Helper", Mods: []string{"private"}}}, f.Unit.Members...)
+	return f
+}
+
 func gen(seed int64, n int, tier string) []interface{} {
 	r := rand.New(rand.NewSource(seed))
 	runs := 40
@@ -467,6 +581,7 @@ func gen(seed int64, n int, tier string) []interface{} {
 			continue
 		}
 		p := javaproj.Gen(r, true)
+		p.Files = append(p.Files, overloadsOnOneLine(r), junitFile(r))
 		out = append(out, Case{Case: fmt.Sprintf("java-%d-%d", seed, k), Kind: "java", Files: p.Files, Layout: p.Layout, N: runs, History: []GitCommit{}})
 	}
 	return out
